@@ -37,10 +37,11 @@ type TB struct {
 	vars  map[string]int
 	True  *Term
 	False *Term
+	linc  map[int]*linForm
 }
 
 func NewTB() *TB {
-	tb := &TB{tab: map[string]*Term{}, ufs: map[string]*ufDecl{}, vars: map[string]int{}}
+	tb := &TB{tab: map[string]*Term{}, ufs: map[string]*ufDecl{}, vars: map[string]int{}, linc: map[int]*linForm{}}
 	tb.True = tb.mk(&Term{Op: "true", Sort: 0})
 	tb.False = tb.mk(&Term{Op: "false", Sort: 0})
 	return tb
@@ -258,11 +259,36 @@ func (tb *TB) Eq(a, b *Term) *Term {
 		return tb.Bool(a.Val == b.Val)
 	}
 	if a.Sort != 0 {
-		// x + c1 == x + c2  (same base)
-		ba, ca := splitAdd(a)
-		bb, cb := splitAdd(b)
-		if ba == bb {
-			return tb.Bool((ca-cb)&mask(a.Sort) == 0)
+		la, lb := tb.lin(a), tb.lin(b)
+		if len(la.atoms)+len(lb.atoms) > 0 && (len(la.atoms) > 1 || len(lb.atoms) > 1 || la.c != 0 && lb.c != 0 || len(la.atoms) == 1 && len(lb.atoms) == 1 && la.atoms[0] == lb.atoms[0]) {
+			d := linCombine(la, 1, lb, mask(a.Sort))
+			if len(d.atoms) == 0 {
+				return tb.Bool(d.c == 0)
+			}
+			// split d = pos - neg with the constant on the right
+			pos := &linForm{n: d.n}
+			neg := &linForm{n: d.n, c: (-d.c) & mask(d.n)}
+			for i, at := range d.atoms {
+				if d.coeffs[i] > mask(d.n)>>1 { // "negative" coefficient
+					neg.atoms = append(neg.atoms, at)
+					neg.coeffs = append(neg.coeffs, (-d.coeffs[i])&mask(d.n))
+				} else {
+					pos.atoms = append(pos.atoms, at)
+					pos.coeffs = append(pos.coeffs, d.coeffs[i])
+				}
+			}
+			na, nb := tb.fromLin(pos), tb.fromLin(neg)
+			if na != a || nb != b {
+				if !(na == b && nb == a) {
+					return tb.Eq(na, nb)
+				}
+			}
+		}
+		if b.IsConst() && isConstTree(a, 0) && a.Op == "ite" {
+			return tb.mapTreeBool(a, func(x *Term) *Term { return tb.Bool(x.Val == b.Val) })
+		}
+		if a.IsConst() && isConstTree(b, 0) && b.Op == "ite" {
+			return tb.mapTreeBool(b, func(x *Term) *Term { return tb.Bool(x.Val == a.Val) })
 		}
 	}
 	if a.Sort == 0 {
@@ -290,6 +316,13 @@ func (tb *TB) Eq(a, b *Term) *Term {
 		a, b = b, a
 	}
 	return tb.mk(&Term{Op: "=", Sort: 0, Args: []*Term{a, b}})
+}
+
+func (tb *TB) mapTreeBool(t *Term, f func(*Term) *Term) *Term {
+	if t.Op == "const" {
+		return f(t)
+	}
+	return tb.Ite(t.Args[0], tb.mapTreeBool(t.Args[1], f), tb.mapTreeBool(t.Args[2], f))
 }
 
 // splitAdd decomposes t as base + constant (base may be nil for a pure constant).
@@ -397,6 +430,19 @@ func (tb *TB) Bin(op string, a, b *Term) *Term {
 		}
 		return tb.BV(n, r)
 	}
+	switch op {
+	case "bvadd":
+		return tb.fromLin(linCombine(tb.lin(a), 1, tb.lin(b), 1))
+	case "bvsub":
+		return tb.fromLin(linCombine(tb.lin(a), 1, tb.lin(b), mask(n)))
+	case "bvmul":
+		if a.IsConst() {
+			return tb.fromLin(linCombine(tb.lin(b), a.Val, &linForm{n: n}, 0))
+		}
+		if b.IsConst() {
+			return tb.fromLin(linCombine(tb.lin(a), b.Val, &linForm{n: n}, 0))
+		}
+	}
 	zero := func(t *Term) bool { return t.IsConst() && t.Val == 0 }
 	ones := func(t *Term) bool { return t.IsConst() && t.Val == mask(n) }
 	switch op {
@@ -490,6 +536,112 @@ func (tb *TB) Bin(op string, a, b *Term) *Term {
 func (tb *TB) Add(a, b *Term) *Term { return tb.Bin("bvadd", a, b) }
 func (tb *TB) Sub(a, b *Term) *Term { return tb.Bin("bvsub", a, b) }
 
+// ---- canonical linear arithmetic: every bvadd/bvsub/bvneg/const-bvmul term is kept as
+// sum(coeff_i * atom_i) + const with atoms ordered by id, so that equal address
+// computations are the same term and differences of addresses fold to constants.
+
+type linForm struct {
+	atoms  []*Term
+	coeffs []uint64
+	c      uint64
+	n      int
+}
+
+func (tb *TB) lin(t *Term) *linForm {
+	if l, ok := tb.linc[t.id]; ok {
+		return l
+	}
+	if t.Op == "const" {
+		return &linForm{c: t.Val, n: t.Sort}
+	}
+	return &linForm{atoms: []*Term{t}, coeffs: []uint64{1}, n: t.Sort}
+}
+
+func linCombine(a *linForm, ka uint64, b *linForm, kb uint64) *linForm {
+	n := a.n
+	m := mask(n)
+	r := &linForm{n: n, c: (a.c*ka + b.c*kb) & m}
+	i, j := 0, 0
+	for i < len(a.atoms) || j < len(b.atoms) {
+		switch {
+		case j >= len(b.atoms) || i < len(a.atoms) && a.atoms[i].id < b.atoms[j].id:
+			if k := (a.coeffs[i] * ka) & m; k != 0 {
+				r.atoms = append(r.atoms, a.atoms[i])
+				r.coeffs = append(r.coeffs, k)
+			}
+			i++
+		case i >= len(a.atoms) || b.atoms[j].id < a.atoms[i].id:
+			if k := (b.coeffs[j] * kb) & m; k != 0 {
+				r.atoms = append(r.atoms, b.atoms[j])
+				r.coeffs = append(r.coeffs, k)
+			}
+			j++
+		default:
+			if k := (a.coeffs[i]*ka + b.coeffs[j]*kb) & m; k != 0 {
+				r.atoms = append(r.atoms, a.atoms[i])
+				r.coeffs = append(r.coeffs, k)
+			}
+			i++
+			j++
+		}
+	}
+	return r
+}
+
+func (tb *TB) fromLin(l *linForm) *Term {
+	n := l.n
+	if len(l.atoms) == 0 {
+		return tb.BV(n, l.c)
+	}
+	// a single constant-leaf ite tree plus a constant: fold the constant into the leaves
+	if len(l.atoms) == 1 && l.coeffs[0] == 1 && l.c != 0 && isConstTree(l.atoms[0], 0) {
+		c := l.c
+		return tb.mapTree(l.atoms[0], func(x *Term) *Term { return tb.BV(n, x.Val+c) })
+	}
+	var r *Term
+	for i, a := range l.atoms {
+		var t *Term
+		switch {
+		case l.coeffs[i] == 1:
+			t = a
+		case l.coeffs[i] == mask(n):
+			t = tb.mk(&Term{Op: "bvneg", Sort: n, Args: []*Term{a}})
+		default:
+			t = tb.mk(&Term{Op: "bvmul", Sort: n, Args: []*Term{tb.BV(n, l.coeffs[i]), a}})
+		}
+		if r == nil {
+			r = t
+		} else {
+			r = tb.mk(&Term{Op: "bvadd", Sort: n, Args: []*Term{r, t}})
+		}
+	}
+	if l.c != 0 {
+		r = tb.mk(&Term{Op: "bvadd", Sort: n, Args: []*Term{r, tb.BV(n, l.c)}})
+	}
+	if len(l.atoms) > 1 || l.c != 0 || l.coeffs[0] != 1 {
+		tb.linc[r.id] = l
+	}
+	return r
+}
+
+func isConstTree(t *Term, depth int) bool {
+	if t.Op == "const" {
+		return true
+	}
+	if t.Op == "ite" && depth < 16 {
+		return isConstTree(t.Args[1], depth+1) && isConstTree(t.Args[2], depth+1)
+	}
+	return false
+}
+
+// mapTree applies f to the constant leaves of an ite tree.
+func (tb *TB) mapTree(t *Term, f func(*Term) *Term) *Term {
+	if t.Op == "const" {
+		return f(t)
+	}
+	return tb.Ite(t.Args[0], tb.mapTree(t.Args[1], f), tb.mapTree(t.Args[2], f))
+}
+
 // Cmp builds a bit-vector comparison: bvult bvule bvslt bvsle (and the g* forms).
 func (tb *TB) Cmp(op string, a, b *Term) *Term {
 	switch op {
@@ -534,12 +686,12 @@ func (tb *TB) Cmp(op string, a, b *Term) *Term {
 			return tb.True
 		}
 	}
-	// compare of ite of constants against a constant: push down
-	if b.IsConst() && a.Op == "ite" && a.Args[1].IsConst() && a.Args[2].IsConst() {
-		return tb.Ite(a.Args[0], tb.Cmp(op, a.Args[1], b), tb.Cmp(op, a.Args[2], b))
+	// compare of a constant-leaf ite tree against a constant: push down
+	if b.IsConst() && a.Op == "ite" && isConstTree(a, 0) {
+		return tb.mapTreeBool(a, func(x *Term) *Term { return tb.Cmp(op, x, b) })
 	}
-	if a.IsConst() && b.Op == "ite" && b.Args[1].IsConst() && b.Args[2].IsConst() {
-		return tb.Ite(b.Args[0], tb.Cmp(op, a, b.Args[1]), tb.Cmp(op, a, b.Args[2]))
+	if a.IsConst() && b.Op == "ite" && isConstTree(b, 0) {
+		return tb.mapTreeBool(b, func(x *Term) *Term { return tb.Cmp(op, a, x) })
 	}
 	return tb.mk(&Term{Op: op, Sort: 0, Args: []*Term{a, b}})
 }
@@ -558,7 +710,7 @@ func (tb *TB) Neg(a *Term) *Term {
 	if a.IsConst() {
 		return tb.BV(a.Sort, -a.Val)
 	}
-	return tb.mk(&Term{Op: "bvneg", Sort: a.Sort, Args: []*Term{a}})
+	return tb.fromLin(linCombine(tb.lin(a), mask(a.Sort), &linForm{n: a.Sort}, 0))
 }
 
 func (tb *TB) Extract(hi, lo int, a *Term) *Term {
